@@ -187,7 +187,7 @@ class SymEnv:
         return RawSym(buf)
 
     def pickle_roundtrip(self, objs):
-        """pickle.loads(pickle.dumps(objs)) for objects on symbolic buffers (stub S10): the object protocol that pickle
+        """pickle.loads(pickle.dumps(objs)) for objects on symbolic buffers (stub S13): the object protocol that pickle
         drives -- __reduce_ex__(4), the classes' own __getstate__/__setstate__ or the instance __dict__, one memo so that
         what was shared stays shared -- is run in Python by copy.deepcopy over the real classes; leaves that pickle
         serialises by value (integers: here solver terms; the buffer's byte array: here the write-log) are copied by
